@@ -27,8 +27,11 @@ def flows_table():
             ("Terminal", "descr"): ("the pending description (parameter)", lambda p: p[0] == "param" and p[2] == "description"),
         },
         "check::do_propagate_fallback_levels": {
-            ("Terminal", "fallback"): ("the level parameter", lambda p: p[0] == "param" and p[2] == "fallback_level"),
-            ("Subword", "fallback"): ("the level parameter", lambda p: p[0] == "param" and p[2] == "fallback_level"),
+            # the level is the third parameter (position, not name)
+            ("Terminal", "fallback"): ("the level parameter", lambda p: p[0] == "param" and p[1] == 2),
+            ("Subword", "fallback"): ("the level parameter", lambda p: p[0] == "param" and p[1] == 2),
+            ("Command", "fallback"): ("the level parameter", lambda p: p[0] == "param" and p[1] == 2),
+            ("NontermRef", "fallback"): ("the level parameter", lambda p: p[0] == "param" and p[1] == 2),
         },
     }
 
@@ -144,7 +147,7 @@ def fallback_index(repo, res, rule="FF"):
                             P.has_bind_root("Fallback", "children")(lvl[1][1][2]) and lvl[1][1][2][0] == "mcall" and lvl[1][1][2][1] == "iter"
                         res.check(ok, rule, key, f"child i of a || node gets level {A.show(lvl)}" + ("" if ok else " -- required: its enumerate() index over children.iter()"), f"{fn.file}:{c['l']}")
                     else:
-                        ok = lvl[0] == "param" and lvl[2] == "fallback_level"
+                        ok = lvl[0] == "param" and lvl[1] == 2
                         res.check(ok, rule, key, f"level passed down: {A.show(lvl)}", f"{fn.file}:{c['l']}")
     # entry point starts at level 0
     f2 = repo.fn("check::propagate_fallback_levels")
@@ -155,6 +158,51 @@ def fallback_index(repo, res, rule="FF"):
     cs = list(P.find_calls(f2.body, names={fn.name}))
     ok = len(cs) == 1 and len(cs[0]["args"]) > 2 and A.resolve(cs[0]["args"][2], env2.get(id(cs[0]))) == ("lit", "0")
     res.check(ok, rule, f"{rule}:check::propagate_fallback_levels:start-level", "top level starts at || index 0", f2.loc())
+
+
+def levelfield(repo, res, rule="LEVEL"):
+    """`the index of the || branch it sits in`: every kind of expected item that carries a level (each Expr variant with a
+    `fallback` field: literals, external commands, nonterminal references, within-word expressions) must leave
+    do_propagate_fallback_levels with the level of the branch it is visited in.  An arm for such a variant may hand the node back
+    unchanged only under a test `its fallback == the level parameter`; otherwise it rebuilds it with `fallback: <level>` (RP flow)."""
+    fq = "check::do_propagate_fallback_levels"
+    fn = repo.fn(fq)
+    if fn is None:
+        res.undecided(rule, f"{rule}:{fq}", "function not found")
+        return
+    envs = A.collect_envs(fn)
+    carriers = [v["name"] for v in (repo.enum("Expr") or {}).get("variants", []) if any(str(f.get("name")) == "fallback" for f in v.get("fields", []))]
+    res.check(len(carriers) >= 4, rule, f"{rule}:carriers", f"Expr variants with a `fallback` field: {carriers}", "src/parse.rs")
+    for m in T.find_enum_matches(repo, fn, "Expr"):
+        for arm in m["arms"]:
+            vs = [p.split("::")[-1] for p, _ in A.pat_variants(arm["pat"])]
+            for v in vs:
+                if v not in carriers:
+                    continue
+                # does this arm ever return the node unchanged?
+                val = A.resolve(arm["body"], envs.get(id(arm["body"])))
+                alts = val[1] if val[0] == "alt" else (val,)
+                identity = [a for a in alts if a[0] == "param" and a[1] == 1]
+                # equality tests `fallback == level` available in the arm: its guard and any if-condition inside it
+                conds = []
+                if arm.get("guard") is not None:
+                    conds.append(arm["guard"])
+                for n in A.walk(arm["body"]):
+                    if n["k"] == "If":
+                        conds.append(n["cond"])
+                tested = False
+                for c in conds:
+                    for b in A.walk(c):
+                        if b["k"] == "Binary" and b["op"] == "==":
+                            l = A.resolve(b["left"], envs.get(id(b["left"])) or envs.get(id(b)))
+                            r = A.resolve(b["right"], envs.get(id(b["right"])) or envs.get(id(b)))
+                            for x, y in ((l, r), (r, l)):
+                                if x[0] == "bind" and x[2] == "fallback" and y[0] == "param" and y[1] == 2:
+                                    tested = True
+                rebuilt = any(n["k"] == "Struct" and n["path"].split("::")[-1] == v for n in A.walk(arm["body"]))
+                ok = (not identity or tested) and (rebuilt or tested)
+                res.check(ok, rule, f"{rule}:{fq}:{v}", (f"{v}: " + ("returned unchanged only when its level already equals the branch's level" if identity and tested else "always rebuilt with the branch's level") if ok else
+                          f"{v} carries a level but this arm hands the node back without comparing its `fallback` with the branch's level: the item keeps whatever level it had (0 from the parser), so it is offered on the first `||` level whatever branch it is written in"), f"{fn.file}:{arm['l']}")
 
 
 def postorder(repo, res, rule="TOPO"):
@@ -241,6 +289,7 @@ def core_skips(repo, res):
 
 
 def run(repo, res, tier):
+    levelfield(repo, res)
     core_skips(repo, res)
     arena_immut(repo, res, tier)
     postorder(repo, res)
